@@ -52,6 +52,18 @@ output_fallback_msg = (
 )
 
 
+def _escape_glob(pattern: str) -> str:
+    """Escape the Sqlite GLOB special characters other than "*".
+
+    Examples:
+        >>> _escape_glob('foo_*')
+        'foo_*'
+        >>> _escape_glob('a?[b]*')
+        'a[?][[]b]*'
+    """
+    return pattern.replace('[', '[[]').replace('?', '[?]')
+
+
 class CylcWorkflowDBChecker:
     """Object for querying task status or outputs from a workflow database.
 
@@ -277,18 +289,18 @@ class CylcWorkflowDBChecker:
         # (Outputs and flow_nums are serialised).
         if task:
             if '*' in task:
-                # Replace Cylc ID wildcard with Sqlite query wildcard.
-                task = task.replace('*', '%')
-                stmt_wheres.append("name like ?")
+                # Cylc ID wildcard == Sqlite GLOB wildcard (unlike LIKE, GLOB
+                # is case sensitive and "_" and "%" are not special).
+                task = _escape_glob(task)
+                stmt_wheres.append("name GLOB ?")
             else:
                 stmt_wheres.append("name==?")
             stmt_args.append(task)
 
         if cycle:
             if '*' in cycle:
-                # Replace Cylc ID wildcard with Sqlite query wildcard.
-                cycle = cycle.replace('*', '%')
-                stmt_wheres.append("cycle like ?")
+                cycle = _escape_glob(cycle)
+                stmt_wheres.append("cycle GLOB ?")
             else:
                 stmt_wheres.append("cycle==?")
             stmt_args.append(cycle)
